@@ -73,6 +73,8 @@ struct upipe_audio_copy {
     unsigned int max_urefs;
     /** list of blockers (used during request) */
     struct uchain blockers;
+    /** true while the held urefs are being output */
+    bool draining;
     /** ubuf manager */
     struct ubuf_mgr *ubuf_mgr;
     /** flow format packet */
@@ -139,6 +141,7 @@ static struct upipe *upipe_audio_copy_alloc(struct upipe_mgr *mgr,
 
     upipe_audio_copy_init_urefcount(upipe);
     upipe_audio_copy_init_input(upipe);
+    upipe_audio_copy_from_upipe(upipe)->draining = false;
     upipe_audio_copy_init_output(upipe);
     upipe_audio_copy_init_flow_def(upipe);
     upipe_audio_copy_init_ubuf_mgr(upipe);
@@ -213,8 +216,15 @@ static int upipe_audio_copy_check(struct upipe *upipe,
     if (upipe_audio_copy->flow_def == NULL)
         return UBASE_ERR_NONE;
 
+    /* a ubuf manager provided while a held flow definition is being handled:
+     * the loop below carries on with the next held urefs */
+    if (upipe_audio_copy->draining)
+        return UBASE_ERR_NONE;
+
     bool was_buffered = !upipe_audio_copy_check_input(upipe);
+    upipe_audio_copy->draining = true;
     upipe_audio_copy_output_input(upipe);
+    upipe_audio_copy->draining = false;
     upipe_audio_copy_unblock_input(upipe);
     if (was_buffered && upipe_audio_copy_check_input(upipe)) {
         /* All packets have been output, release again the pipe that has been
